@@ -42,8 +42,10 @@ pub fn session(authorized: bool, scenario: u8) -> (Sim, Vec<Vec<Bytes>>) {
     sim.drain_logs = true;
     sim.connect(ATTACKER);
     sim.connect(HONEST);
+    // the attacker's genuine protocol hash is part of the material the mutations start from
+    let mut genuine_hash: Vec<Vec<Bytes>> = sim.clients[ATTACKER].c2s.iter().map(|q| q.iter().map(|m| m.bytes.clone()).collect()).collect();
     if !authorized {
-        // the genuine hash of the attacker's client never reaches the server
+        // the genuine hash of the attacker's client does not reach the server on its own
         for q in &mut sim.clients[ATTACKER].c2s {
             q.clear();
         }
@@ -59,6 +61,9 @@ pub fn session(authorized: bool, scenario: u8) -> (Sim, Vec<Vec<Bytes>>) {
     round(&mut sim, &who);
     // capture genuine traffic of the attacker's own client
     let mut captured: Vec<Vec<Bytes>> = vec![Vec::new(); sim.ckinds.len()];
+    for (ch, v) in genuine_hash.iter_mut().enumerate() {
+        captured[ch].append(v);
+    }
     sim.step(&Step::Mutate { slot: 0, k: K::A });
     sim.step(&Step::Mutate { slot: 1, k: K::C });
     sim.force_tick_frame();
